@@ -311,9 +311,58 @@ fn c03_archives(rng: &mut Rng, tier: &str) -> Vec<(Plan, Built, &'static str)> {
     v
 }
 
+/// "Unaltered archives always open", for EVERY length of the encryption layer's plaintext around
+/// the chunk boundaries. Scaled (CHUNK = 64): one file whose size is swept byte by byte from 0 to
+/// beyond three chunks, layers ENCRYPT and ENCRYPT|COMPRESS (incompressible content). Production
+/// (job c03-lengths): the plaintext of the layer takes every length in [k*CHUNK-8, k*CHUNK+24],
+/// k = 1, 2 - an archive of one chunk plus a few bytes exists only at production constants (the
+/// smallest non-empty scaled archive is already larger than a chunk).
+pub fn c03_unaltered_sweep(rng: &mut Rng, tier: &str, out: &mut Out) {
+    let mut sizes: Vec<(u8, usize)> = Vec::new();
+    if cfg!(feature = "scaled") {
+        let span = if tier == "thorough" { 4 * CH + 20 } else { 3 * CH + 8 };
+        for layers in [L_ENC, L_ENC | L_COMP] {
+            sizes.extend((0..span).map(|s| (layers, s)));
+        }
+    } else {
+        // overhead of the block stream and footer around one file named "f"
+        let probe = Plan { names: vec![b"f".to_vec()], pieces: vec![(0, vec![7u8; 100])], layers: L_ENC, level: 1, recipients: 1, reader_key: 0 };
+        let Ok(b) = build(rng, &probe) else { return };
+        let body = b.bytes.len() - b.header_len;
+        let overhead = body - TAG * ((body + CTS - 1) / CTS) - 100;
+        for k in if tier == "thorough" { vec![1usize, 2, 3] } else { vec![1usize, 2] } {
+            for d in 0..33usize {
+                sizes.push((L_ENC, k * CH - 8 + d - overhead));
+            }
+        }
+    }
+    for (layers, size) in sizes {
+        let plan = Plan { names: vec![b"f".to_vec()], pieces: vec![(0, rng.bytes(size))], layers, level: 1, recipients: 1, reader_key: 0 };
+        let Ok(built) = build(rng, &plan) else { continue };
+        let obs = observe(&built.bytes, &built.privs);
+        let (r, outcome) = oracle_c03(&plan, &built, &obs);
+        let ok = r.is_ok() && outcome == "original-data";
+        let body = built.bytes.len() - built.header_len;
+        out.case(&Case {
+            id: format!("c03-unaltered-l{layers}-s{size}"),
+            model_fn: "",
+            args: vec![],
+            imp: json!([]),
+            oracle_ok: ok,
+            oracle_msg: if ok { String::new() } else { format!("unaltered archive (one file of {size} bytes, layers {layers}, encrypted stream of {body} bytes): {} {}", outcome, r.err().unwrap_or_default()) },
+            class: format!("layers={layers} unaltered-length-sweep {outcome}"),
+            nontrivial: true,
+            meta: json!({"size": size, "len": built.bytes.len(), "layers": layers, "body_mod_cts": body % CTS}),
+        });
+    }
+}
+
 pub fn c03_cases(rng: &mut Rng, tier: &str, out: &mut Out) {
     let model_stride = if tier == "thorough" { 61 } else { 19 };
     let mut counter = 0usize;
+    if cfg!(feature = "scaled") {
+        c03_unaltered_sweep(rng, tier, out);
+    }
     for (ai, (plan, built, akind)) in c03_archives(rng, tier).iter().enumerate() {
         // the unaltered archive must open and give everything back
         let obs0 = observe(&built.bytes, &built.privs);
@@ -426,6 +475,22 @@ fn c04_archives(rng: &mut Rng, tier: &str) -> Vec<(Plan, Built, &'static str)> {
     };
     if let Ok(b) = build(rng, &plan) {
         v.push((plan, b, "adversarial-tail"));
+    }
+    // adversarial content: ONE content block spanning several chunks whose bytes, at every later chunk
+    // boundary of the plaintext stream, look like the header of a FileContent block of the same file
+    // (type 1, id 0, length 10): a reader that steps over a failed chunk resumes on something that parses.
+    // FileStart a = 18 bytes, FileContent header = 17 bytes: the content starts at plaintext offset 35.
+    let mut content = rng.bytes(4 * CH + 20);
+    for m in 2..=4usize {
+        let at = m * CH - 35;
+        let mut fake = vec![1u8];
+        fake.extend_from_slice(&0u64.to_le_bytes());
+        fake.extend_from_slice(&10u64.to_le_bytes());
+        content[at..at + 17].copy_from_slice(&fake);
+    }
+    let plan = Plan { names: vec![b"a".to_vec()], pieces: vec![(0, content)], layers: L_ENC, level: 5, recipients: 1, reader_key: 0 };
+    if let Ok(b) = build(rng, &plan) {
+        v.push((plan, b, "adversarial-content"));
     }
     v
 }
